@@ -277,6 +277,53 @@ def is_plain_iter(p: Program, it) -> bool:
     return True
 
 
+# ---------------------------------------------------------------------- canonical form of a branch condition
+def canon_dep(test, label):
+    """(text, label) of a branch condition in canonical polarity: `a != b` F == `a == b` T, `x is not None` == not `x is None`,
+    `not e` flips, `X not in Y` flips; quotes normalised"""
+    t, l = test, label
+    flip = {"T": "F", "F": "T"}
+    while True:
+        if isinstance(t, ast.UnaryOp) and isinstance(t.op, ast.Not):
+            t, l = t.operand, flip.get(l, l)
+            continue
+        if isinstance(t, ast.Compare) and len(t.ops) == 1 and isinstance(t.ops[0], (ast.NotEq, ast.IsNot, ast.NotIn)):
+            pos = {ast.NotEq: ast.Eq, ast.IsNot: ast.Is, ast.NotIn: ast.In}[type(t.ops[0])]()
+            t = ast.Compare(left=t.left, ops=[pos], comparators=t.comparators)
+            l = flip.get(l, l)
+            continue
+        break
+    txt = norm(t).replace('"', "'")
+    if txt.endswith(" == None"):
+        txt = txt[: -len(" == None")] + " is None"
+    return txt, l
+
+
+def atomic_deps(test, label):
+    """canonical atomic conditions implied by taking branch `label` of `test`:  (a or b, F) -> a F, b F;  (a and b, T) -> a T, b T;
+    a test that cannot be decomposed for that branch stays whole"""
+    t, l = test, label
+    flip = {"T": "F", "F": "T"}
+    while isinstance(t, ast.UnaryOp) and isinstance(t.op, ast.Not):
+        t, l = t.operand, flip.get(l, l)
+    if isinstance(t, ast.BoolOp):
+        if (isinstance(t.op, ast.Or) and l == "F") or (isinstance(t.op, ast.And) and l == "T"):
+            out = []
+            for v in t.values:
+                out += atomic_deps(v, l)
+            return out
+    return [canon_dep(t, l)]
+
+
+def branch_where(test, want_true: bool):
+    """label of the branch of `test` on which its canonical (positive) form is true / false"""
+    _, l = canon_dep(test, "T")
+    # canon_dep(test, "T") tells which canonical truth value the T branch has: l == "T" means T branch <=> canonical true
+    if want_true:
+        return "T" if l == "T" else "F"
+    return "F" if l == "T" else "T"
+
+
 # ---------------------------------------------------------------------- shared rules between properties
 _sub_cache = {}
 _depth = [0]
